@@ -116,9 +116,11 @@ class SideState:
                 # see comment on the SideState.is_corrupt method for more information on the corrupt state
                 self._saved_exists = self.exists
                 self._exists = v
+                self._parent.updated(self._side, k, v)      # the marker must reach storage
                 return
             if v != CORRUPT and self.is_corrupt:
                 self._saved_exists = self._translate_exists(v)
+                self._parent.updated(self._side, k, v)
                 return
 
         self._parent.updated(self._side, k, v)
